@@ -18,6 +18,16 @@ def roundtrip_logs(logs, mode):
     return [OperationLog.model_validate_json(l.model_dump_json()) for l in logs]
 
 
+def run_cmd(eng, c):
+    """a command the engine is known to refuse (simlib.refused_commands) is caught, as a plan editor would, and the
+    session goes on; any other exception is an exception of the run"""
+    if simlib.is_refused(c):
+        if simlib.exec_safe(eng, c) is not None:
+            raise AssertionError(f"a malformed command was not refused: {command_text(c)}")
+    else:
+        eng.exec(c)
+
+
 def resumed_logs(job, variant, straight_logs, cmds, k, mode):
     eng = make_engine(job, variant)
     if mode == "json-at-cut":
@@ -25,19 +35,21 @@ def resumed_logs(job, variant, straight_logs, cmds, k, mode):
         # dumped then (a log that a later command of the straight run rewrites in place is not in this record)
         pre = make_engine(job, variant)
         for c in cmds[:k]:
-            pre.exec(c)
+            run_cmd(pre, c)
         eng.reload(roundtrip_logs(list(pre.operation_logs()), "json"))
     else:
-        eng.reload(roundtrip_logs(straight_logs[: k + 1], mode))
+        # one log per command that was not refused, after the initial log
+        n_logs = 1 + sum(1 for c in cmds[:k] if not simlib.is_refused(c))
+        eng.reload(roundtrip_logs(straight_logs[:n_logs], mode))
     for c in cmds[k:]:
-        eng.exec(c)
+        run_cmd(eng, c)
     return list(eng.operation_logs())
 
 
 def straight(job, variant, cmds):
     eng = make_engine(job, variant)
     for c in cmds:
-        eng.exec(c)
+        run_cmd(eng, c)
     return list(eng.operation_logs())
 
 
@@ -76,7 +88,11 @@ def unit(job, variant, pi, seed, quick, plan_len):
     out = {"failing": [], "broken": [], "evaluations": 0, "kinds": {}, "entity": {}, "ckpts": 0, "reqs": [],
            "expect": [], "cases": []}
     n = rng.randint(*plan_len)
-    cmds = random_plan(rng, job, variant, n)
+    # every second plan has times off every grid (sub-microsecond residues of cooldowns and durations) and commands the
+    # engine refuses with an exception, after which the session goes on (no log is written for them)
+    cmds = random_plan(rng, job, variant, n, offgrid=(pi % 2 == 1))
+    if pi % 2 == 1:
+        cmds = simlib.with_refused(rng, cmds)
     for c in cmds:
         kd = getattr(c, "command", "CONSOLE")
         out["kinds"][kd] = out["kinds"].get(kd, 0) + 1
@@ -137,12 +153,44 @@ def unit(job, variant, pi, seed, quick, plan_len):
                               "job": job, "conflicts": rec.conflicts[:3]})
     cuts = sorted({0, len(cmds) // 2, len(cmds)} | {rng.randint(0, len(cmds)) for _ in range(2)})
     for k in cuts:
-        ops = [{"exec": simlib.enc_command(c)} for c in cmds[:k]] + [{"reload": True}] + \
-              [{"exec": simlib.enc_command(c)} for c in cmds[k:]]
+        ops = [{"exec": simlib.enc_command(c)} for c in cmds[:k] if not simlib.is_refused(c)] + [{"reload": True}] + \
+              [{"exec": simlib.enc_command(c)} for c in cmds[k:] if not simlib.is_refused(c)]
         out["reqs"].append({"fn": "engine", "tables": rec.tables(), "init": rec.ckpt_id(a[0].playlogs[0]), "ops": ops})
         out["expect"].append((job, variant, k, [rec.enc_log(l) for l in a],
                               simlib.hash_structure([l.previous_hash for l in a], [l.hash for l in a]),
                               [command_text(c) for c in cmds]))
+    return out
+
+
+def refused_unit(job, variant, seed, quick):
+    """every skill used, then a command the engine refuses (a malformed ELAPSE: it raises inside the first elapse
+    reducer, after the engine has already handed the pending callbacks of the use to the play), then every skill of the
+    job cast once; resumed directly after the refused line.  What a refused command leaves behind in the engine's working
+    state is in no log, so the resumed run would not have it."""
+    import random
+    rng = random.Random(f"C01:refused:{seed}:{job}:{variant}")
+    out = {"failing": [], "evaluations": 0}
+    names = [v.name for v in make_engine(job, variant).get_current_viewer()("validity")]
+    refused = simlib.refused_commands()[0]
+    firsts = names
+    for s in firsts:
+        rest = list(names)
+        rng.shuffle(rest)
+        # ... with some time in between, so that a periodic hit of the skill is waiting to be relayed to its listeners
+        head = [simlib.op(rng.choice(["USE", "CAST"]), s)] + \
+               ([simlib.op("ELAPSE", time=rng.choice([300.0, 1000.0, 2500.0]))] if rng.random() < 0.7 else [])
+        cmds = head + [refused] + [simlib.op("CAST", t) for t in rest[: (8 if quick else len(rest))]]
+        cut = len(head) + 1
+        for mode in ("json",) if quick else ("memory", "json"):
+            out["evaluations"] += 1
+            diff = fails(job, variant, cmds, cut, mode)
+            if diff is not None:
+                small, kk = shrink(job, variant, cmds, cut, mode, budget_s=10.0)
+                out["failing"].append({"kind": "resume-differs", "job": job, "variant": variant, "mode": mode,
+                                       "plan": [command_text(c) for c in small], "cut_after": kk,
+                                       "first_difference": fails(job, variant, small, kk, mode),
+                                       "note": "the plan holds a command the engine refuses with an exception"})
+                return out
     return out
 
 
@@ -229,6 +277,16 @@ def main(ck: Check):
         ck.broken.extend(out["broken"])
         model_reqs.extend(out["reqs"])
         model_expect.extend(out["expect"])
+
+    refused_evals = 0
+    for args, out in pmap(refused_unit, [(job, 0, ck.seed, quick) for job in JOBS], ck.budget_s * 0.15):
+        if args is None:
+            ck.notes.append(f"budget reached (refused commands): {out}")
+            continue
+        refused_evals += out["evaluations"]
+        for f in out["failing"]:
+            ck.add_failing(f)
+    evaluations += refused_evals
 
     with ck.locked():
         proved = ck.prove("Simaple.Props.C01")
